@@ -40,21 +40,18 @@ pub fn get_or_create_resource_node(
     match node {
         Some(node) => node,
         None => {
-            if RESOURCE_NODE_MAP.read().unwrap().len() >= DEFAULT_MAX_RESOURCE_AMOUNT {
+            let mut res_map = RESOURCE_NODE_MAP.write().unwrap();
+            if res_map.len() >= DEFAULT_MAX_RESOURCE_AMOUNT {
                 logging::warn!(
                     "[get_or_create_resource_node] Resource amount exceeds the threshold {}",
                     DEFAULT_MAX_RESOURCE_AMOUNT
                 )
             }
-            RESOURCE_NODE_MAP.write().unwrap().insert(
-                res_name.clone(),
-                Arc::new(ResourceNode::new(res_name.clone(), *resource_type)),
-            );
-            RESOURCE_NODE_MAP
-                .read()
-                .unwrap()
-                .get(res_name)
-                .unwrap()
+            // another thread may have created the node since the lookup above:
+            // insert only if it is still absent, so that all entries share one node
+            res_map
+                .entry(res_name.clone())
+                .or_insert_with(|| Arc::new(ResourceNode::new(res_name.clone(), *resource_type)))
                 .clone()
         }
     }
